@@ -776,7 +776,7 @@ class C29(Spec):
         if op == 'argmax':
             return [['argmax', ['i', 'v'], ['x'], {}]], ['i', 'v']
         if op == 'keyed':
-            return [['keyed', ['a', 'b', 'i', 'v', 'j', 'w', 'y'], ['x'], {}]], ['a', 'b', 'i', 'v', 'j', 'w', 'y']
+            return [['keyed', ['a', 'b', 'i', 'v', 'j', 'w', 'y', 'lo', 'hi'], ['x'], {}]], ['a', 'b', 'i', 'v', 'j', 'w', 'y', 'lo', 'hi']
         raise ValueError(op)
 
     def make_case(self, seed, tier):
